@@ -7,6 +7,7 @@ package main
 import (
 	"encoding/json"
 	"fmt"
+	"strings"
 )
 
 func init() {
@@ -67,6 +68,15 @@ func selfTest(c *Check) {
 		}
 	}
 	check("one stack height corrupted", bad, false)
+	// corrupt one logged value: the result of an addition
+	bad = append([]traceEvent{}, evs...)
+	for i := range bad {
+		if i > 0 && bad[i].E == "step" && bad[i-1].E == "step" && bad[i-1].Op == 16 && strings.HasPrefix(string(bad[i].Tos), `["I",`) {
+			bad[i].Tos = json.RawMessage(`["I",4242]`)
+			break
+		}
+	}
+	check("one computed value corrupted", bad, false)
 	// drop one step
 	bad = nil
 	dropped := false
